@@ -38,9 +38,9 @@ std::string Describe(const Op& op)
 {
     if (op.kind == OP_CRASH) {
         char b[200];
-        static const char* sel[] = {"uniform", "boundary", "burst-edge", "inside-coins-flush"};
+        static const char* sel[] = {"uniform", "boundary", "burst-edge", "inside-coins-flush", "before-first-full-flush(kill)"};
         static const char* mode[] = {"kill", "powerloss(j=k)", "powerloss(j=last sync)", "powerloss(j seeded)"};
-        snprintf(b, sizeof b, "FAULT crash at io[%s#%ld] %s torn=%ld", sel[op.mod(0, 4)], (long)op.arg(1), mode[op.mod(2, 4)], (long)(op.arg(4) & 1));
+        snprintf(b, sizeof b, "FAULT crash at io[%s#%ld] %s torn=%ld", sel[op.mod(0, 5)], (long)op.arg(1), mode[op.mod(2, 4)], (long)(op.arg(4) & 1));
         return b;
     }
     if (op.kind == OP_PRUNE) return "pruneblockchain(height#" + std::to_string(op.arg(0)) + ")";
@@ -131,7 +131,7 @@ Plan Gen(uint64_t seed, Tier tier)
         for (int i = 0; i < ncrash; ++i) {
             Op op;
             op.kind = OP_CRASH;
-            op.a = {(int64_t)rng.pick({3, 4, 2, 5}), (int64_t)(rng.next() >> 20), (int64_t)rng.pick({3, 1, 4, 3}), (int64_t)(rng.next() >> 20), (int64_t)rng.below(4), (int64_t)(rng.next() >> 20)};
+            op.a = {(int64_t)rng.pick({3, 4, 2, 5, 2}), (int64_t)(rng.next() >> 20), (int64_t)rng.pick({3, 1, 4, 3}), (int64_t)(rng.next() >> 20), (int64_t)rng.below(4), (int64_t)(rng.next() >> 20)};
             p.ops.push_back(op);
         }
     }
@@ -390,6 +390,11 @@ struct CrashSim {
             if (cs.node->Fatal()) return; // the flush reported an error (injected I/O fault): it did not complete
             flush_marks.emplace_back(simfs::LogSize(), cs.node->Running() ? cs.TipIdx() : last_tip);
         };
+        // Process kills are also placed between the creation of the databases and the first completed full flush (the very first
+        // coins flush has no old tip); power-loss cuts are not, because LevelDB's NewDB() itself is not power-loss safe (see DESIGN 11.2).
+        size_t k_created = 0;
+        bool created_seen = false;
+        cs.on_node_started = [&] { if (!created_seen) { created_seen = true; k_created = simfs::LogSize(); } };
         cs.coinbase_pad_min = (int)ctx.knob("pad_min", 0);
         cs.coinbase_pad_max = (int)ctx.knob("pad_max", 0);
         cs.Setup();
@@ -485,17 +490,19 @@ struct CrashSim {
         int n = 0;
         auto one = [&](size_t k, int mode, uint64_t jsel, bool torn, uint32_t torn_sel) {
             simfs::CrashSpec spec;
-            spec.k = std::clamp(k, k0, end);
+            spec.k = std::clamp(k, mode == 0 ? k_created : k0, end);
             spec.powerloss = mode != 0;
             if (mode == 1) spec.j = spec.k;
             else if (mode == 2) spec.j = last_sync_before(spec.k);
             else if (mode == 3) { size_t lo = last_sync_before(spec.k); spec.j = lo + (spec.k > lo ? jsel % (spec.k - lo + 1) : 0); if (jsel & 1) spec.j = jsel % (spec.k + 1); }
-            spec.j = std::clamp(spec.j, k0, spec.k);
+            spec.j = std::clamp(spec.j, std::min(k0, spec.k), spec.k);
+            if (spec.k < k0) ctx.probe("crash_before_first_full_flush");
             spec.torn = torn && spec.j > k0; // the torn write must lie inside the crash window
             spec.torn_sel = torn_sel;
             Recover(spec, n++);
         };
         if (ctx.knob("enumerate", 0)) {
+            for (size_t k = k_created; k < k0; ++k) one(k, 0, 0, false, 0);
             for (size_t k = k0; k <= end; ++k) {
                 one(k, 0, 0, false, 0);
                 one(k, 2, 0, (k & 1), (uint32_t)k);
@@ -505,7 +512,8 @@ struct CrashSim {
         } else {
             for (const Op& op : crashes) {
                 size_t k;
-                int sel = (int)op.mod(0, 4);
+                int sel = (int)op.mod(0, 5);
+                if (sel == 4) { one(k_created + op.mod(1, k0 - k_created + 1), 0, 0, false, 0); continue; }
                 if (sel == 3 && !inside_coins_flush.empty()) k = inside_coins_flush[op.mod(1, inside_coins_flush.size())];
                 else if (sel == 1 && !boundaries.empty()) k = boundaries[op.mod(1, boundaries.size())];
                 else if (sel == 2 && !burst_edges.empty()) k = burst_edges[op.mod(1, burst_edges.size())];
